@@ -12,6 +12,7 @@ import FontVerif.Lemmas.Ift
 import FontVerif.Lemmas.IftGlyph
 import FontVerif.Lemmas.IftOrder
 import FontVerif.Lemmas.IftErrors
+import FontVerif.Lemmas.IftPipeline
 set_option linter.unusedVariables false
 namespace FontVerif.C18
 open FontVerif FontVerif.Ift
@@ -550,5 +551,88 @@ theorem glyf_loca_never_widens (font : Font) (a : OffsetArray) (ha : glyfAndLoca
   rw [this]
 
 example : OffsetType.shortDivByTwo.maxRepresentable = 0x1FFFE := by decide
+
+/-! ## order / grouping independence at the entry point `apply_glyph_keyed_patches` (patch BYTES + decoder)
+
+`Stateless dec`: the decoder is a function of (stream, dictionary, max length) — like the real brotli
+decoders; the fault-injecting decoders (fail on the k-th call) are deliberately excluded here, for
+them the outcome depends on the order by construction.  `prepAll font dec patches` (Lemmas/
+IftPipeline.lean) = the list of (info, decoded + parsed payload) the front half of the function
+computes, `none` if any patch fails a compat check, the header read, the tag check, decoding or
+parsing (`applyGlyphKeyed_ok_iff`). -/
+
+/-- **glyph_keyed_order_independent_entry.**  Whole entry point, any stateless decoder: if the
+decoded patches agree on shared gids, every permutation of the (info, patch bytes) list yields
+the same font. -/
+theorem glyph_keyed_order_independent_entry (patches patches' : List (PatchInfo × Bytes)) (font out : Font)
+    (dec : Decoder) (hst : Stateless dec) (hperm : patches.Perm patches')
+    (hagree : ∀ ps, prepAll font dec patches = some ps → Agree TAG_glyf (ps.map (·.2)))
+    (h : applyGlyphKeyed patches font dec = .ok out) :
+    applyGlyphKeyed patches' font dec = .ok out := by
+  obtain ⟨ps, hp, ha⟩ := (applyGlyphKeyed_ok_iff font dec hst patches out).mp h
+  obtain ⟨ps', hp', hperm'⟩ := prepAll_perm font dec patches patches' hperm ps hp
+  exact (applyGlyphKeyed_ok_iff font dec hst patches' out).mpr
+    ⟨ps', hp', applyGlyphPatches_perm ps ps' font out hperm' (hagree ps hp) ha⟩
+
+/-- **glyph_keyed_grouping_independent_entry.**  Whole entry point, any stateless decoder: applying
+the patches `p1`, then `p2` to the result, gives the tables of applying `p1 ++ p2` in one call. -/
+theorem glyph_keyed_grouping_independent_entry (p1 p2 : List (PatchInfo × Bytes))
+    (font font1 out2 out12 : Font) (dec : Decoder) (hst : Stateless dec) (hu : UniqueTags font)
+    (hagree : ∀ ps, prepAll font dec (p1 ++ p2) = some ps → Agree TAG_glyf (ps.map (·.2)))
+    (h1 : applyGlyphKeyed p1 font dec = .ok font1)
+    (h2 : applyGlyphKeyed p2 font1 dec = .ok out2)
+    (h12 : applyGlyphKeyed (p1 ++ p2) font dec = .ok out12) :
+    out2 = out12 := by
+  obtain ⟨ps1, hp1, ha1⟩ := (applyGlyphKeyed_ok_iff font dec hst p1 font1).mp h1
+  obtain ⟨ps2', hp2', ha2⟩ := (applyGlyphKeyed_ok_iff font1 dec hst p2 out2).mp h2
+  obtain ⟨ps12, hp12, ha12⟩ := (applyGlyphKeyed_ok_iff font dec hst (p1 ++ p2) out12).mp h12
+  obtain ⟨q1, q2, e1, e2, e3⟩ := prepAll_append font dec p1 p2 ps12 hp12
+  rw [hp1] at e1
+  simp only [Option.some.injEq] at e1
+  subst e1
+  have : ps2' = q2 := prepAll_font_indep font1 font dec p2 ps2' q2 hp2' e2
+  subst this e3
+  exact applyGlyphPatches_split ps1 ps2' font font1 out2 out12 hu (hagree _ hp12) ha1 ha2 ha12
+
+/-- **glyph_keyed_entry_reduces.**  For ANY decoder (fault-injecting ones included): a successful
+`apply_glyph_keyed_patches` on patch bytes is compat checks ✓ for every patch, `n` successful decoder
+calls `dec 0 … dec (n-1)` in patch order, `n` successful payload parses, and then `applyGlyphPatches`
+on the patches' infos and the parsed payloads — so `glyph_keyed_splice_spec`,
+`glyph_keyed_other_tables_unchanged`, `applied_bits_exact` and the error-path theorems speak about
+the output of the entry point. -/
+theorem glyph_keyed_entry_reduces (patches : List (PatchInfo × Bytes)) (font out : Font) (dec : Decoder)
+    (h : applyGlyphKeyed patches font dec = .ok out) :
+    ∃ hs raws gps, checkGlyphKeyed font patches = .ok hs ∧ hs.map (·.1) = patches.map (·.1) ∧
+      decodeAll dec (hs.map (·.2)) 0 = .ok raws ∧
+      parseAll (List.zip raws (hs.map (·.2))) = .ok gps ∧
+      applyGlyphPatches (patches.map (·.1)) gps font = .ok out := by
+  unfold applyGlyphKeyed at h
+  cases hc : checkGlyphKeyed font patches with
+  | error e => rw [hc] at h; cases h
+  | ok hs =>
+    rw [hc] at h
+    simp only at h
+    unfold applyGlyphKeyedCore at h
+    cases hd : decodeAll dec (hs.map (·.2)) 0 with
+    | error e => rw [hd] at h; cases h
+    | ok raws =>
+      rw [hd] at h
+      simp only at h
+      cases hp : parseAll (List.zip raws (hs.map (·.2))) with
+      | error e => rw [hp] at h; cases h
+      | ok gps =>
+        rw [hp] at h
+        simp only at h
+        have hm := (checkGlyphKeyed_all font patches hs hc).1
+        exact ⟨hs, raws, gps, rfl, hm, hd, hp, by rw [← hm]; exact h⟩
+
+/-- non-vacuity: `prepAll` on a real (info, patch bytes) pair with the identity decoder -/
+example :
+    let font : Font := [(TAG_IFT, [2,0,0,0,0, 1,1,1,1,1,1,1,1,1,1,1,1,1,1,1,1, 0])]
+    let p : Bytes := [0x69,0x66,0x67,0x6b, 0,0,0,0, 0, 1,1,1,1,1,1,1,1,1,1,1,1,1,1,1,1, 0,0,0,21,
+                      0,0,0,1, 1, 0,1, 0x67,0x6c,0x79,0x66, 0,0,0,19, 0,0,0,21, 7,7]
+    let i : PatchInfo := { uri := "a", iftx := false, compat := [1,1,1,1,1,1,1,1,1,1,1,1,1,1,1,1], bit := 0 }
+    (prepAll font (fun _ s _ _ => .ok s) [(i, p)]).map (fun ps => ps.map (fun x => (x.2.gids, x.2.tables, patchData TAG_glyf x.2)))
+      = some [([1], [TAG_glyf], [(1, [7,7])])] := by rfl
 
 end FontVerif.C18
